@@ -27,6 +27,10 @@ func Count(v reflect.Value) int {
 	return v.Len()
 }
 
+// distinctKey is the type of the keys that stand for unhashable
+// items in Distinct. It cannot collide with a string item.
+type distinctKey string
+
 // Distinct returns the values passed in with any duplicates removed.
 func Distinct(v reflect.Value) interface{} {
 	v = jtypes.Resolve(v)
@@ -45,10 +49,21 @@ func Distinct(v reflect.Value) interface{} {
 		for i := 0; i < items.Len(); i++ {
 			item := jtypes.Resolve(items.Index(i))
 
-			if jtypes.IsMap(item) {
-				// We can't hash a map, so convert it to a
-				// string that is hashable
-				mapItem := fmt.Sprint(item.Interface())
+			if orig := items.Index(i); jtypes.IsCallable(orig) {
+				// Functions are compared by identity. Keep the
+				// pointer instead of the struct it points to.
+				for orig.Kind() == reflect.Interface {
+					orig = orig.Elem()
+				}
+				item = orig
+			}
+
+			if jtypes.IsMap(item) || !item.Type().Comparable() {
+				// We can't hash a map or a slice, so convert it
+				// to a string that is hashable. The Go-syntax
+				// representation keeps values of different kinds
+				// apart, e.g. {"a":1} and {"a":"1"}.
+				mapItem := distinctKey(fmt.Sprintf("%#v", item.Interface()))
 				if _, ok := visited[mapItem]; ok {
 					continue
 				}
